@@ -34,4 +34,4 @@ CHECK = SimCheck(
     RULE, ["because one frame per connection is served per round, checking ACK counts after every round pins the order of acknowledgements on each connection"],
     quick=(900, 60), thorough=(20000, 150), nontrivial=nontrivial,
 )
-run, replay, shard = CHECK.run, CHECK.replay, CHECK.shard
+run, replay_trace, shard = CHECK.run, CHECK.replay_trace, CHECK.shard
